@@ -446,7 +446,29 @@ fn gen_crit(g: &mut Gen, f: &mut Faults) -> Item {
 
 pub fn gen_content_type(g: &mut Gen, f: &mut Faults) -> Item {
     if f.take(g, "content-type-bad") {
-        return match g.below(12) {
+        return match g.below(15) {
+            12 | 13 | 14 => {
+                // media-type-like text with parameters and non-ASCII characters whose number of slashes is wrong
+                const Q: &[&str] = &["a", "text", "x-é", "café", "json", ";", "; ", ";p=1", "p=", "+", ".", "中", "中文", "😀", "é", "ü;", "\"q\""];
+                let n = 2 + g.below(6);
+                let mut t = String::new();
+                for _ in 0..n {
+                    let piece: &&str = g.pick(Q);
+                    t.push_str(piece);
+                }
+                if g.bool() {
+                    // two (or three) slashes instead of none
+                    for _ in 0..(2 + g.below(2)) {
+                        let mut at = g.below(t.len() + 1);
+                        while !t.is_char_boundary(at) {
+                            at -= 1;
+                        }
+                        t.insert(at, '/');
+                    }
+                }
+                let t = t.trim_matches(crate::model::is_white_space).to_string();
+                Item::Text(if t.matches('/').count() == 1 { format!("{}/", t) } else { t })
+            }
             0 => gen_unregistered(g, reg::COAP_CONTENT_FORMAT, false),
             1 => Item::Int(-1),
             2 => Item::Text(String::new()),
